@@ -258,6 +258,62 @@ func (it *Interp) makeArg(name string, t types.Type, as ArgSpec, byName map[stri
 		} else if strings.HasSuffix(ts, "Named") {
 			f.Named = Yes
 		}
+		// nresults=N result0kind=K: shapes the registering Add has checked
+		if nr, ok := as["nresults"]; ok && k == KSignature {
+			n := 0
+			opts := strings.Split(nr, ",")
+			oi := 0
+			if len(opts) > 1 {
+				oi = it.choose(len(opts), "len(Results("+name+"))", opts...)
+			}
+			fmt.Sscan(opts[oi], &n)
+			tup := &SymTuple{Desc: "Results(" + name + ")"}
+			for i := 0; i < n; i++ {
+				vt := it.newType(fmt.Sprintf("Results%d(%s)", i, name))
+				if rk, ok := as[fmt.Sprintf("result%dkind", i)]; ok {
+					rf := it.fact(vt)
+					rf.Named, rf.Kind = No, kindOfTypeName(rk)
+				}
+				if i == n-1 && as["lastbool"] == "true" {
+					vt = it.basicType(types.Bool)
+				}
+				tup.Vars = append(tup.Vars, &SymVar{NameT: Lit(""), Type: vt, Desc: fmt.Sprintf("Results%d(%s)", i, name)})
+			}
+			f.Results = tup
+		}
+		if np, ok := as["nparams"]; ok && k == KSignature {
+			as["minparams"] = np
+			as["maxparams"] = np
+		}
+		// minparams=N: the registering Add has checked the arity
+		if mp, ok := as["minparams"]; ok && k == KSignature {
+			min := 0
+			fmt.Sscan(mp, &min)
+			save := it.MaxArity
+			if mx, ok := as["maxparams"]; ok {
+				fmt.Sscan(mx, &save)
+			}
+			if min > save {
+				min = save
+			}
+			n := min + it.choose(save-min+1, "nparams-"+name+"-minus-"+mp)
+			tup := &SymTuple{Desc: "Params(" + name + ")"}
+			named := true
+			if it.NameVariants && n > 0 {
+				named = it.choose(2, "names("+name+")", "present", "absent") == 0
+			}
+			for i := 0; i < n; i++ {
+				vt := it.newType(fmt.Sprintf("Params%d(%s)", i, name))
+				h := it.newHole(&Hole{Kind: "paramname", Class: "Ident", Desc: fmt.Sprintf("p%d", i), Owner: ty, Index: i})
+				nm := HoleT(h)
+				if !named {
+					nm = Lit("")
+				}
+				tup.Vars = append(tup.Vars, &SymVar{NameT: nm, Type: vt, Desc: fmt.Sprintf("Params%d(%s)", i, name)})
+			}
+			f.Params = tup
+			it.run.descs = append(it.run.descs, fmt.Sprintf("len(Params(%s))=%d", name, n))
+		}
 		return ty
 	case ts == "[]go/types.Type":
 		lens := []string{"1"}
@@ -277,6 +333,26 @@ func (it *Interp) makeArg(name string, t types.Type, as ArgSpec, byName map[stri
 				continue
 			}
 			sv.Elems = append(sv.Elems, it.newType(fmt.Sprintf("%s[%d]", name, i)))
+		}
+		// shapes the caller (Generate's dispatch) has established: kind0=Slice ekind0=Basic ebasic0=string
+		for i, e := range sv.Elems {
+			t := e.(*SymType)
+			if k, ok := as[fmt.Sprintf("kind%d", i)]; ok {
+				f := it.fact(t)
+				f.Named, f.Kind = No, kindOfTypeName(k)
+			}
+			if k, ok := as[fmt.Sprintf("ekind%d", i)]; ok {
+				el := it.elemOf(t, 0)
+				f := it.fact(el)
+				f.Named, f.Kind = No, kindOfTypeName(k)
+				if b, ok := as[fmt.Sprintf("ebasic%d", i)]; ok {
+					for _, bt := range types.Typ {
+						if bt.Name() == b {
+							f.Basic = map[types.BasicKind]bool{bt.Kind(): true}
+						}
+					}
+				}
+			}
 		}
 		return sv
 	case ts == "string":
